@@ -90,28 +90,27 @@ Definition is_low_surrogate (r : N) : bool := (56320 <=? r) && (r <? 57344).
 (* utf16.DecodeRune on a valid pair *)
 Definition combine_surrogates (hi lo : N) : N := (hi - 55296) * 1024 + (lo - 56320) + 65536.
 
-Definition ocons (l : bytes) (o : option bytes) : option bytes :=
-  match o with Some r => Some (l ++ r) | None => None end.
+(* linear-time list reversal (Coq's [rev] is quadratic); lrev l = rev l *)
+Definition lrev {A : Type} (l : list A) : list A := rev_append l [].
 
-(* the rune of a leading \uXXXX of s, as getu4(s) computes it *)
-Definition getu4 (s : bytes) : option N :=
+(* The loop of unquoteBytes over the text BEHIND the opening quote, closing quote
+   included: Go checks that s[len-1] is a double quote and then fails on any raw double
+   quote inside s[1:len-1]; the model, reading left to right, accepts a double quote
+   exactly when it is the last byte.
+   [acc] is the output so far, reversed (keeps the function linear and tail recursive).
+   [pend] is a high surrogate read from the immediately preceding \uXXXX escape that
+   still waits for its partner: Go looks ahead with a second getu4; the model looks
+   back, which is the same thing and keeps the recursion structural.  A pending high
+   surrogate that is not followed by a low-surrogate escape becomes U+FFFD. *)
+Fixpoint unq (pend : option N) (s : bytes) (acc : bytes) : option bytes :=
+  (* the output with the pending surrogate given up *)
+  let acc0 := match pend with Some _ => rev_append repl_char acc | None => acc end in
   match s with
-  | bsl :: u :: a :: b :: c :: d :: _ =>
-      if (bsl =? 92) && (u =? 117) then hex4 a b c d else None
-  | _ => None
-  end.
-
-(* The body loop of unquoteBytes.  [pend] is a high surrogate read from the immediately
-   preceding \uXXXX escape that still waits for its partner: Go looks ahead with a
-   second getu4; the model looks back, which is the same thing and keeps the recursion
-   structural.  A pending high surrogate that is not followed by a low-surrogate
-   escape becomes U+FFFD. *)
-Fixpoint unq (pend : option N) (s : bytes) : option bytes :=
-  let fl := match pend with Some _ => repl_char | None => [] end in
-  match s with
-  | [] => Some fl
+  | [] => None
   | c :: r =>
-      if c =? 92 then
+      if c =? 34 then
+        match r with [] => Some (lrev acc0) | _ :: _ => None end
+      else if c =? 92 then
         match r with
         | [] => None
         | e :: r1 =>
@@ -124,18 +123,18 @@ Fixpoint unq (pend : option N) (s : bytes) : option bytes :=
                       match pend with
                       | Some hi =>
                           if is_low_surrogate u
-                          then ocons (utf8_encode (combine_surrogates hi u)) (unq None r2)
-                          else if is_high_surrogate u then ocons repl_char (unq (Some u) r2)
-                          else ocons (repl_char ++ utf8_encode u) (unq None r2)
+                          then unq None r2 (rev_append (utf8_encode (combine_surrogates hi u)) acc)
+                          else if is_high_surrogate u then unq (Some u) r2 acc0
+                          else unq None r2 (rev_append (utf8_encode u) acc0)
                       | None =>
-                          if is_high_surrogate u then unq (Some u) r2
-                          else ocons (utf8_encode u) (unq None r2)
+                          if is_high_surrogate u then unq (Some u) r2 acc
+                          else unq None r2 (rev_append (utf8_encode u) acc)
                       end
                   end
               | _ => None
               end
             else
-              let simple (b : byte) := ocons (fl ++ [b]) (unq None r1) in
+              let simple (b : byte) := unq None r1 (b :: acc0) in
               if (e =? 34) || (e =? 92) || (e =? 47) || (e =? 39) then simple e
               else if e =? 98 then simple 8
               else if e =? 102 then simple 12
@@ -144,39 +143,35 @@ Fixpoint unq (pend : option N) (s : bytes) : option bytes :=
               else if e =? 116 then simple 9
               else None
         end
-      else if (c =? 34) || (c <? 32) then None
-      else if c <? 128 then ocons (fl ++ [c]) (unq None r)
+      else if c <? 32 then None
+      else if c <? 128 then unq None r (c :: acc0)
       else
         (* utf8.DecodeRune: a valid sequence is copied, otherwise ONE byte becomes U+FFFD *)
-        let bad := ocons (fl ++ repl_char) (unq None r) in
+        let bad (_ : unit) := unq None r (rev_append repl_char acc0) in
         match r with
-        | [] => bad
+        | [] => bad tt
         | c1 :: r1 =>
-            if utf8_2 c c1 then ocons (fl ++ [c; c1]) (unq None r1)
+            if utf8_2 c c1 then unq None r1 (c1 :: c :: acc0)
             else
               match r1 with
-              | [] => bad
+              | [] => bad tt
               | c2 :: r2 =>
-                  if utf8_3 c c1 c2 then ocons (fl ++ [c; c1; c2]) (unq None r2)
+                  if utf8_3 c c1 c2 then unq None r2 (c2 :: c1 :: c :: acc0)
                   else
                     match r2 with
-                    | [] => bad
+                    | [] => bad tt
                     | c3 :: r3 =>
-                        if utf8_4 c c1 c2 c3 then ocons (fl ++ [c; c1; c2; c3]) (unq None r3)
-                        else bad
+                        if utf8_4 c c1 c2 c3 then unq None r3 (c3 :: c2 :: c1 :: c :: acc0)
+                        else bad tt
                     end
               end
         end
   end.
 
-(* unquoteBytes: len(s) >= 2, s[0] == '"', s[len-1] == '"', then the loop over s[1:len-1] *)
+(* unquoteBytes on the text of a string literal, both quotes included *)
 Definition unquote (item : bytes) : option bytes :=
   match item with
-  | q :: r =>
-      match r with
-      | [] => None
-      | _ :: _ => if (q =? 34) && (last r 0 =? 34) then unq None (removelast r) else None
-      end
+  | q :: r => if q =? 34 then unq None r [] else None
   | [] => None
   end.
 
@@ -267,7 +262,7 @@ Definition step_endvalue (st : sstate) (c : byte) : sres :=
             else RErr
         | FArr items =>
             if c =? 44 then RCont (set_mode st MBeginValue)
-            else if c =? 93 then close_container (JArr (rev items)) r st
+            else if c =? 93 then close_container (JArr (lrev items)) r st
             else RErr
         | FObjKey _ | FObjVal _ _ => RBug
         end
@@ -302,7 +297,7 @@ Definition step_beginstring (st : sstate) (c : byte) : sres :=
 
 (* the closing quote: literalInterface / the key part of objectInterface *)
 Definition finish_string (st : sstate) : sres :=
-  match unquote (rev (34 :: s_lit st)) with
+  match unquote (lrev (34 :: s_lit st)) with
   | None => RBug
   | Some s =>
       match s_stack st with
@@ -313,7 +308,7 @@ Definition finish_string (st : sstate) : sres :=
 
 (* convertNumber on the collected text *)
 Definition finish_number (st : sstate) : option sstate :=
-  match parse_float (rev (s_lit st)) with
+  match parse_float (lrev (s_lit st)) with
   | PFok f => push_value (JNum f) st
   | PFrange f =>
       push_value (JNum f) (mkS (s_mode st) (s_stack st) (s_depth st) (s_lit st) (s_top st) true)
@@ -478,29 +473,32 @@ Inductive step_result := SValue (v : jvalue) | SEof | SErr | SUnsupported.
 Definition value_result (v : jvalue) (rng : bool) : step_result :=
   if rng then SErr else SValue v.   (* the unmarshal error is not saved in dec.err *)
 
-(* readValue.  [seen] = buffered bytes already scanned in this call (state [st] reached),
-   [new] = buffered bytes not scanned yet.  Scan first; only when every buffered byte has
-   been scanned without completing the value, refill (one Read), then scan the new bytes;
-   a Read error is looked at only after the scan. *)
-Fixpoint read_value (chs : list bytes) (fl : bool) (st : sstate) (seen new : bytes)
+(* readValue.  [rseen] = buffered bytes already scanned in this call (state [st] reached),
+   in REVERSE order (linear time); [new] = buffered bytes not scanned yet.  Scan first;
+   only when every buffered byte has been scanned without completing the value, refill
+   (one Read), then scan the new bytes; a Read error is looked at only after the scan. *)
+Definition unscanned (rseen new : bytes) : bytes := rev_append rseen new.   (* = rev rseen ++ new *)
+
+Fixpoint read_value (chs : list bytes) (fl : bool) (st : sstate) (rseen new : bytes)
   : step_result * dstate * list io_ev :=
   match scan st new with
   | ScDone v rng rest => (value_result v rng, mkD rest (mkR chs fl) false false false, [])
-  | ScErr => (SErr, mkD (seen ++ new) (mkR chs fl) false false true, [])
-  | ScBug => (SUnsupported, mkD (seen ++ new) (mkR chs fl) false false true, [])
+  | ScErr => (SErr, mkD (unscanned rseen new) (mkR chs fl) false false true, [])
+  | ScBug => (SUnsupported, mkD (unscanned rseen new) (mkR chs fl) false false true, [])
   | ScMore st' =>
       match chs with
       | c :: chs' =>
-          let '(r, d, evs) := read_value chs' fl st' (seen ++ new) c in
+          let '(r, d, evs) := read_value chs' fl st' (rev_append new rseen) c in
           (r, d, EvRead (length c) :: evs)
       | [] =>
-          if fl then (SErr, mkD (seen ++ new) (mkR [] fl) false true true, [EvReadFail])
+          let all := unscanned rseen new in
+          if fl then (SErr, mkD all (mkR [] fl) false true true, [EvReadFail])
           else
-            match at_eof st' (seen ++ new) with
+            match at_eof st' all with
             | EoValue v rng => (value_result v rng, mkD [] (mkR [] fl) false false false, [EvReadEOF])
-            | EoEof => (SEof, mkD (seen ++ new) (mkR [] fl) true false false, [EvReadEOF])
-            | EoErr => (SErr, mkD (seen ++ new) (mkR [] fl) false false true, [EvReadEOF])
-            | EoBug => (SUnsupported, mkD (seen ++ new) (mkR [] fl) false false true, [EvReadEOF])
+            | EoEof => (SEof, mkD all (mkR [] fl) true false false, [EvReadEOF])
+            | EoErr => (SErr, mkD all (mkR [] fl) false false true, [EvReadEOF])
+            | EoBug => (SUnsupported, mkD all (mkR [] fl) false false true, [EvReadEOF])
             end
       end
   end.
